@@ -78,7 +78,7 @@ def es_light(rep, seed):
     """quick tier: random and corner-chasing extend-split histories only (the edge replay is part of the C07 check)"""
     rng = random.Random(seed + 7)
     traces = []
-    for c, steps in ES.random_configs('quick', rng)[10:]:
+    for c, steps in ES.random_configs('quick', rng)[14:]:
         try:
             tr = EP.random_history(rng, c, steps)
         except impl.Timeout:
